@@ -48,12 +48,12 @@ def _ops():
     )
     present = st.builds(lambda n: f"{n};255;0;0;17;2.0\n", st.one_of(st.integers(0, 255), st.sampled_from((250, 253, 254, 255))))
     install = st.one_of(st.integers(1, 254), st.sampled_from((2, 3, 5, 200, 253, 254))).map(lambda i: ["install", i])
-    return st.lists(gen.weighted((6, request.map(lambda l: ["rx", l])), (2, present.map(lambda l: ["rx", l])), (1, install)), min_size=3, max_size=20)
+    return st.lists(gen.weighted((6, request.map(lambda l: ["rx", l])), (2, present.map(lambda l: ["rx", l])), (1, install), (1, st.sampled_from((["save"], ["save"], ["reload"])))), min_size=3, max_size=20)
 
 
 def strategy(tier: str):
     return st.fixed_dictionaries(
-        {"version": gen.versions_any, "ids": _ids, "install": st.sampled_from(("direct", "presented")), "ops": _ops(), "listen_mode": st.sampled_from(("fresh", "persistent")), "debug_log": st.sampled_from((False, False, True)),
+        {"version": st.one_of(st.none(), gen.versions_any, gen.versions_any, gen.versions_any), "ids": _ids, "install": st.sampled_from(("direct", "presented")), "ops": _ops(), "listen_mode": st.sampled_from(("fresh", "persistent")), "debug_log": st.sampled_from((False, False, True)),
          "fail_answers": st.one_of(st.just([]), st.just([]), st.lists(st.integers(0, 5), max_size=3, unique=True).map(sorted))}
     )
 
@@ -69,6 +69,16 @@ def enumerate_cases(tier: str):
         yield {"version": "2.0" if k % 2 else "1.5", "ids": list(range(1, k + 1)), "install": "direct", "ops": req}
     for k in range(0, 256):
         yield {"version": "2.2" if k % 2 else "1.5", "ids": list(range(0, k + 1)), "install": "direct", "ops": req}
+    # the gateway has not reported its version yet (every fresh start): the same rules, topped-out registries included
+    for ids in ([], [5], list(range(0, 255)), [254], [3, 255], list(range(1, 255)), list(range(0, 254)), [253]):
+        for mode in ("fresh", "persistent"):
+            yield {"version": None, "ids": ids, "install": "direct", "ops": req, "listen_mode": mode}
+    # the registry is saved / reloaded between requests (scheduled save, leaving and re-entering the gateway context)
+    for version in (None, "1.4", "2.2"):
+        for ids in ([], [1, 2, 5], [0, 7]):
+            for between in (["save"], ["reload"], ["save"], ["save"]):
+                ops = [["rx", "255;255;3;0;3;\n"], between, ["rx", "255;255;3;0;3;\n"], ["save"], ["reload"], ["rx", "255;255;3;0;3;\n"], ["rx", "9;255;0;0;17;2.0\n"], ["save"], ["rx", "255;255;3;0;3;\n"]]
+                yield {"version": version, "ids": ids, "install": "direct", "ops": ops, "listen_mode": "persistent"}
     for k in (250, 252, 253, 254):
         # nearly full registries without the gateway node 0, filled to the brim by requests
         yield {"version": "2.1", "ids": list(range(1, k + 1)), "install": "direct", "ops": [["rx", "255;255;3;0;3;\n"]] * (256 - k)}
